@@ -9,7 +9,10 @@
 //  2. The harness executes skeletons, magnitude scenarios and long seeded random chains on the real consensus.ApplyHeader and,
 //     in lock-step, consensus.ApplyBlock with empty blocks; every step logs both resulting states as BigNat
 //     limbs, six candidate headers with the verdicts of consensus.ValidateHeader, a sibling state and the
-//     verdicts of SufficientlyHeavierThan.
+//     verdicts of SufficientlyHeavierThan. Timestamps are instants (seconds, nanoseconds): the sub-second part
+//     is a dimension of every chain. A third chain alternates the two entry points and receives every instant
+//     in another representation (time zone, monotonic reading); the block and the header as they come back from
+//     their encoding are applied by both entry points as well.
 //  3. TLC validates the trace against spec/pow/DifficultyTrace.tla: every clause of the property at every
 //     step, the state before a step being the one the specification derived from the previous line.
 //  4. Every REJECT is re-executed on the real code before it is reported.
@@ -43,18 +46,19 @@ type skeleton struct {
 	B1       int     `json:"b1"`
 	Pos      int     `json:"pos"`
 	B2       int     `json:"b2"`
-	Steps    [][]int `json:"steps"` // choice, timestamp, 2*median, era rank
+	Fr       int     `json:"fr"`    // sub-second class of the chain's instants
+	Steps    [][]int `json:"steps"` // choice, instant (s, ns), median (s, ns), era rank
 }
 
 var skelFactors = []uint64{1, 1009, 7}
 
 func (s skeleton) desc(i int) chainDesc {
-	d := chainDesc{Kind: "skeleton", Steps: len(s.Steps),
+	d := chainDesc{Kind: "skeleton", Steps: len(s.Steps), Frac: s.Fr,
 		Net: netDesc{Oak: s.Oak, Fix: s.Fix, Asic: s.Asic, Allow: s.Allow, Final: s.Final, Interval: s.Interval, Tgt: s.Tgt, Factor: skelFactors[i%len(skelFactors)], OakTime: s.OakTime}}
 	for _, st := range s.Steps {
 		d.Choice = append(d.Choice, st[0])
-		d.TS = append(d.TS, st[1])
-		d.M2 = append(d.M2, st[2])
+		d.TS = append(d.TS, whole(int64(st[1]))+int64(st[2]))
+		d.Med = append(d.Med, whole(int64(st[3]))+int64(st[4]))
 	}
 	return d
 }
@@ -99,7 +103,7 @@ func loadSkeletons(c *vlib.Ctx, cfg string) ([]skeleton, int) {
 			continue
 		}
 		var s skeleton
-		if err := json.Unmarshal([]byte(vlib.UnquoteTLA(ln[5:])), &s); err != nil || len(s.Steps) == 0 {
+		if err := json.Unmarshal([]byte(vlib.UnquoteTLA(ln[5:])), &s); err != nil || len(s.Steps) == 0 || len(s.Steps[0]) != 6 || s.Fr < 0 || s.Fr > 3 {
 			c.Fatal("cannot parse skeleton %q: %v", vlib.Tail(ln, 200), err)
 		}
 		skels = append(skels, s)
@@ -107,7 +111,7 @@ func loadSkeletons(c *vlib.Ctx, cfg string) ([]skeleton, int) {
 	// canonical order (TLC's workers print in any order), then one representative per distinct chain
 	keys := make([]string, len(skels))
 	for i, s := range skels {
-		keys[i] = fmt.Sprint(s.Shape, s.Interval, s.Tgt, s.Steps, s.B1, s.Pos, s.B2)
+		keys[i] = fmt.Sprint(s.Shape, s.Interval, s.Tgt, s.Steps, s.Fr, s.B1, s.Pos, s.B2)
 	}
 	order := make([]int, len(skels))
 	for i := range order {
@@ -118,7 +122,7 @@ func loadSkeletons(c *vlib.Ctx, cfg string) ([]skeleton, int) {
 	var uniq []skeleton
 	for _, i := range order {
 		s := skels[i]
-		k := fmt.Sprint(s.Shape, s.Interval, s.Tgt, s.Steps)
+		k := fmt.Sprint(s.Shape, s.Interval, s.Tgt, s.Steps, s.Fr)
 		if !seen[k] {
 			seen[k] = true
 			uniq = append(uniq, s)
@@ -135,14 +139,15 @@ func main() {
 		replay(c)
 		return
 	}
-	c.Rule("Skeletons: TLC enumerates (network shape with fork heights 2..12) x interval x initial-target class x (background regime b1, one free timestamp choice at every position, background b2) chains of 14 headers; a seeded sample is executed. Fork-edge skeletons: the same chains on 12 network shapes in which each fork height in turn (and all together) is 0 or 1, initial-target classes 1 and 6 (quick), nonce factor 7 or 1009; a seeded round-robin over (shape, class) is executed. Random chains: network shape x timestamp regime x seed, up to 3000+ headers, logged in windows (all fork heights, all pre-Oak retargets, periodic windows), plus probes that stop just after a pre-Oak retarget at height 500/1000/1500. Magnitude lattice: TLC (DifficultyMag) enumerates start (one per era and era boundary, 11) x required work (k*2^64/2^128/2^192 minus or plus a little, half/double/four times 2^64b, mainnet magnitude) x cumulative work (the j-th addition carries across limb boundary wb, or plain) x work estimate (retargeting pushes up / down / in balance) x timestamp choice; the harness constructs the state and applies 7 headers; a core (both integer-work eras x every magnitude class with the binding push) is always executed, the rest is a seeded sample stratified by (start, limb boundary). Long chains from genesis at initial difficulties 2^63..2^66, 2^127..2^128, 2^192.., 2^75. One evaluation = one header applied by ApplyHeader and ApplyBlock, with six ValidateHeader candidates and two fork-choice pairs, validated by TLC. Non-trivial = distinct (network, difficulty, oak state, timestamp) step in which the required work changed or which lies at a fork height.")
+	c.Rule("Skeletons: TLC enumerates (network shape with fork heights 2..12) x interval x initial-target class x (background regime b1, one free timestamp choice at every position, background b2) chains of 14 headers; a seeded sample is executed. Fork-edge skeletons: the same chains on 12 network shapes in which each fork height in turn (and all together) is 0 or 1, initial-target classes 1 and 6 (quick), nonce factor 7 or 1009; a seeded round-robin over (shape, class) is executed. Random chains: network shape x timestamp regime x seed, up to 3000+ headers, logged in windows (all fork heights, all pre-Oak retargets, periodic windows), plus probes that stop just after a pre-Oak retarget at height 500/1000/1500. Magnitude lattice: TLC (DifficultyMag) enumerates start (one per era and era boundary, 11) x required work (k*2^64/2^128/2^192 minus or plus a little, half/double/four times 2^64b, mainnet magnitude) x cumulative work (the j-th addition carries across limb boundary wb, or plain) x work estimate (retargeting pushes up / down / in balance) x timestamp choice; the harness constructs the state and applies 7 headers; a core (both integer-work eras x every magnitude class with the binding push) is always executed, the rest is a seeded sample stratified by (start, limb boundary). Long chains from genesis at initial difficulties 2^63..2^66, 2^127..2^128, 2^192.., 2^75. Sub-second class of the instants of a chain: whole seconds / every header +1 ns / +999 999 999 ns / alternating 999 999 999 ns and 0 (chosen by TLC for skeletons and magnitude scenarios, spread over the other dimensions), plus seeded random nanoseconds for random chains. One evaluation = one header applied by ApplyHeader and ApplyBlock, by a third chain that alternates the two entry points and is handed every instant in another representation (UTC / another zone / with a monotonic reading), and -- as it comes back from its encoding -- by both entry points again (same state demanded); with six ValidateHeader candidates (the time candidates: the last second before the median with 999 999 999 ns on top -- an instant that may lie after the median, the second decides -- and the first admissible second; every candidate also in another representation and as it comes back from its encoding) and two fork-choice pairs, validated by TLC. Non-trivial = distinct (network, difficulty, oak state, timestamp) step in which the required work changed or which lies at a fork height.")
 	c.Assume("BigNat (spec/lib, cross-checked against TLC integers by BigNatTest) is the arithmetic oracle")
 	c.Assume("initial targets and the ASIC reset target have difficulty < 2^200; above that Work.mul64 overflows by construction (noted, not claimed)")
 	c.Assume("constructed states (magnitude lattice): height, required work, cumulative work, work estimate and oak time are chosen by the specification, the fields of the other representation are their floored inverses (re-checked by TLC on the reset line), the eleven previous timestamps are on schedule; such states are what a network with that initial target / ASIC reset target and enough blocks reaches, headers cannot be mined at these difficulties, so ApplyHeader/ApplyBlock (which do not check proof of work) are driven directly and ValidateHeader is only expected to refuse for insufficient work")
 	c.Assume("networks: fork heights are naturals (0 = active from genesis; shapes with each fork at 0 and at 1 in turn, and all together, are included), allow <= final, interval >= 1 s, nonce factor >= 1, ASIC OakTime/OakTarget non-zero; the genesis state carries the initial target with the difficulty derived from it in every era")
-	c.Assume("timestamps are whole seconds within 2^29 s of the genesis timestamp; the harness supplies the pre-Oak ancestor timestamp as a node would (1000 blocks back, or genesis)")
+	c.Assume("timestamps held in memory are instants at the resolution of one nanosecond within 2^29 s of the genesis timestamp (which is on a whole second); the sub-second part, the time zone and the monotonic clock reading of a time value are not part of the encoded header; the harness supplies the pre-Oak ancestor timestamp as a node would (1000 blocks back, or genesis)")
 	c.Assume("the header ID (a hash) is taken from the real code; the specification only compares it with the target")
-	c.Assume("the median of fewer than eleven timestamps (heights < 10) is the median of the timestamps that exist; an even count takes the mean of the middle two")
+	c.Assume("the median of fewer than eleven timestamps (heights < 10) is the median of the timestamps that exist; an even count takes the mean of the middle two (the window holds whole seconds, so the mean lies on the second or half a second after it)")
+	c.Assume("a header is encoded, and hashed into its ID, with the whole second of its instant: that second is what consensus judges and records; the verdict on a header and the state after it are functions of the encoded header (clause Encoded.same: the original form, with whatever sub-second part and representation, and the form that comes back from the encoding give the same verdict and the same state, by both entry points)")
 
 	t0 := time.Now()
 	// 0. BigNat self-check
@@ -177,7 +182,7 @@ func main() {
 	tSkel := time.Since(t0)
 	r := rand.New(rand.NewSource(c.Seed))
 	r.Shuffle(len(skels), func(i, j int) { skels[i], skels[j] = skels[j], skels[i] })
-	nSkel := c.Pick(300, 20000)
+	nSkel := c.Pick(300, 16000)
 	if nSkel > len(skels) {
 		nSkel = len(skels)
 	}
@@ -201,7 +206,7 @@ func main() {
 		zcells[k] = append(zcells[k], s)
 	}
 	sort.Strings(znames)
-	nZero := c.Pick(120, 6000)
+	nZero := c.Pick(120, 5000)
 	for round, n := 0, 0; n < nZero; round++ {
 		took := false
 		for _, k := range znames {
@@ -218,7 +223,7 @@ func main() {
 		}
 	}
 	// 2. long random chains, and probes of the pre-Oak retarget (chains that stop just after a multiple of 500)
-	nLong := c.Pick(5, 100)
+	nLong := c.Pick(5, 85)
 	for k := 0; k < nLong; k++ {
 		idx := int(c.Seed%1000) + k
 		sh := longShapes[idx%len(longShapes)]
@@ -231,10 +236,10 @@ func main() {
 		if c.Thorough && k%3 == 0 {
 			thin = 0 // every step validated
 		}
-		descs = append(descs, chainDesc{Kind: "random", Net: sh, Regime: regime, Seed: c.Seed*7919 + int64(k), Steps: int(sh.Final) + extra, Thin: thin})
+		descs = append(descs, chainDesc{Kind: "random", Net: sh, Regime: regime, Seed: c.Seed*7919 + int64(k), Steps: int(sh.Final) + extra, Thin: thin, Frac: (idx + idx/len(longShapes)) % 5})
 	}
 	// ... and at the magnitudes of the limb boundaries
-	nMagLong := c.Pick(2, 90)
+	nMagLong := c.Pick(2, 75)
 	for k := 0; k < nMagLong; k++ {
 		idx := int(c.Seed%1000) + k
 		sh := magShapes[idx%len(magShapes)]
@@ -244,7 +249,7 @@ func main() {
 		if c.Thorough && k%3 == 0 {
 			thin = 0
 		}
-		descs = append(descs, chainDesc{Kind: "random", Net: sh, Regime: regime, Seed: c.Seed*15485863 + int64(k), Steps: int(sh.Final) + extra, Thin: thin})
+		descs = append(descs, chainDesc{Kind: "random", Net: sh, Regime: regime, Seed: c.Seed*15485863 + int64(k), Steps: int(sh.Final) + extra, Thin: thin, Frac: (idx + 2) % 5})
 	}
 	var preOak []netDesc
 	for _, sh := range longShapes {
@@ -257,7 +262,7 @@ func main() {
 		sh := preOak[(int(c.Seed%1000)+k)%len(preOak)]
 		sh.Tgt = 1 + (k+int(c.Seed%1000))%4
 		stop := 500 * (1 + r.Intn(int(sh.Oak)/500))
-		descs = append(descs, chainDesc{Kind: "random", Net: sh, Regime: (k + int(c.Seed%1000)) % nRegimes, Seed: c.Seed*104729 + int64(k), Steps: stop + 3, Thin: -1})
+		descs = append(descs, chainDesc{Kind: "random", Net: sh, Regime: (k + int(c.Seed%1000)) % nRegimes, Seed: c.Seed*104729 + int64(k), Steps: stop + 3, Thin: -1, Frac: (k + int(c.Seed%1000)) % 5})
 	}
 
 	// 2b. the magnitude lattice: TLC chooses the states the chains start from
@@ -272,7 +277,7 @@ func main() {
 	if len(mags) < 5000 {
 		c.Fatal("only %d magnitude scenarios emitted", len(mags))
 	}
-	mags = pickMag(mags, r, c.Pick(440, 24000))
+	mags = pickMag(mags, r, c.Pick(440, 20000))
 	c.Cov("magnitude_scenarios_executed", len(mags))
 	for i, m := range mags {
 		descs = append(descs, m.desc(i))
@@ -284,7 +289,7 @@ func main() {
 	var batches [][]int
 	var cur []int
 	est := 0
-	limit := c.Pick(4500, 25000)
+	limit := c.Pick(4500, 16000) // (a line carries five states: smaller batches keep TLC's heap where it was)
 	for i, d := range descs {
 		cur = append(cur, i)
 		est += d.estimate()
@@ -373,12 +378,26 @@ func runBatch(c *vlib.Ctx, descs []chainDesc, idx []int, first bool, cv *cover, 
 	cv.lines += len(trace)
 	mu.Unlock()
 	done := map[string]bool{}
+	// the state before a step is the one derived from the previous line: once a clause has failed in a chain, a broken
+	// environment assumption further down the same chain (the model's median against a window the code got wrong)
+	// is a consequence of that failure, not a defect of the scenario
+	failedAt := map[int]int{}
+	for _, rj := range rejects {
+		if rj.line >= 1 && rj.line <= len(trace) && !strings.HasPrefix(rj.msg, "Env.") {
+			if ch := where[rj.line-1].chain; failedAt[ch] == 0 || rj.line < failedAt[ch] {
+				failedAt[ch] = rj.line
+			}
+		}
+	}
 	for _, rj := range rejects {
 		if rj.line < 1 || rj.line > len(trace) {
 			c.Infra("bad reject line %d", rj.line)
 			continue
 		}
 		if strings.HasPrefix(rj.msg, "Env.") {
+			if at := failedAt[where[rj.line-1].chain]; at != 0 && at < rj.line {
+				continue
+			}
 			c.Infra("a trace line breaks an environment assumption of the specification: %s (%s)", rj.msg, describe(descs[idx[where[rj.line-1].chain]]))
 			continue
 		}
@@ -428,12 +447,12 @@ func heightOf(ln map[string]any) any {
 
 func describe(d chainDesc) string {
 	if d.Kind == "skeleton" {
-		return fmt.Sprintf("skeleton net=%+v choices=%v", d.Net, d.Choice)
+		return fmt.Sprintf("skeleton net=%+v choices=%v sub-second class %s", d.Net, d.Choice, fracClassName(d.Frac))
 	}
 	if d.Kind == "mag" {
-		return fmt.Sprintf("constructed state net=%+v %s (height %d, D=%s W=%s oakWork=%s) timestamp choice %d", d.Net, d.Mag.Label, d.Mag.Start, d.Mag.D, d.Mag.W, d.Mag.OakW, d.Regime)
+		return fmt.Sprintf("constructed state net=%+v %s (height %d, D=%s W=%s oakWork=%s) timestamp choice %d sub-second class %s", d.Net, d.Mag.Label, d.Mag.Start, d.Mag.D, d.Mag.W, d.Mag.OakW, d.Regime, fracClassName(d.Frac))
 	}
-	return fmt.Sprintf("random net=%+v regime=%d seed=%d", d.Net, d.Regime, d.Seed)
+	return fmt.Sprintf("random net=%+v regime=%d seed=%d sub-second class %s", d.Net, d.Regime, d.Seed, fracClassName(d.Frac))
 }
 
 func sameJSON(a, b any) bool {
@@ -499,6 +518,7 @@ type cover struct {
 	limb                               map[string]map[string]int // "carryW" | "carryUp" | "borrowDown" -> "<clause>/b<limb>" -> steps
 	magSamples                         int
 	edge                               map[string]int // "<fork><0|1>:<candidate>=<outcome>" on networks with that fork height 0 / 1
+	frac                               map[string]map[string]int // sub-second class -> fact -> steps
 }
 
 // forkEdges names the fork heights of a network that are 0 (active from genesis) or 1.
@@ -519,7 +539,7 @@ func forkEdges(d netDesc) (tags []string) {
 
 func newCoverage() *cover {
 	return &cover{eras: map[string]int{}, boundaries: map[string]int{}, decisive: map[string]int{}, oakLow: map[string]int{}, distinct: map[string]bool{},
-		edge: map[string]int{}, mag: map[string]map[string]int{}, limb: map[string]map[string]int{"carryW": {}, "carryUp": {}, "borrowDown": {}}}
+		edge: map[string]int{}, frac: map[string]map[string]int{}, mag: map[string]map[string]int{}, limb: map[string]map[string]int{"carryW": {}, "carryUp": {}, "borrowDown": {}}}
 }
 
 func (cv *cover) add(c *vlib.Ctx, desc chainDesc, cr *chainRun) {
@@ -534,6 +554,24 @@ func (cv *cover) add(c *vlib.Ctx, desc chainDesc, cr *chainRun) {
 		}
 		cv.steps++
 		cv.eras[m.era]++
+		fc := cv.frac[fracClassName(m.frac)]
+		if fc == nil {
+			fc = map[string]int{}
+			cv.frac[fracClassName(m.frac)] = fc
+		}
+		fc["steps"]++
+		fc["steps/"+m.era]++
+		for k, v := range map[string]bool{"instant_off_the_second": m.subsec, "median_off_the_second": m.medSubsec,
+			"time_candidate_decided_by_its_second": m.truncDecides, "required_work_changed": m.changed} {
+			if v {
+				fc[k]++
+			}
+		}
+		if m.medSubsec {
+			for _, k := range []string{"time", "attime"} {
+				fc["median_off_the_second:"+k+"="+m.decisive[k]]++
+			}
+		}
 		if m.oakLow {
 			cv.oakLow[m.era]++
 		}
@@ -603,6 +641,30 @@ func (cv *cover) report(c *vlib.Ctx) {
 	for _, e := range []string{"ClampOak", "ClampV2", "ClampFinal"} {
 		if cv.oakLow[e] == 0 {
 			c.Infra("vacuity: no %s step starts from an oak time below one second (division guards not exercised)", e)
+		}
+	}
+	// the sub-second part of the instants: every class ran through every clause; in the classes off the second the
+	// header rule was decided against medians off the second and by the second of an instant that itself lies after
+	// the median (that the state does not depend on the sub-second part is clause Encoded.same)
+	c.Cov("steps_per_subsecond_class", cv.frac)
+	for f := 0; f <= 3; f++ {
+		fc := cv.frac[fracClassName(f)]
+		for _, e := range []string{"NoAdjust", "ClampOak", "AsicReset", "ClampV2", "ClampFinal"} {
+			if fc["steps/"+e] == 0 {
+				c.Infra("vacuity: no %s step in a chain of sub-second class %s", e, fracClassName(f))
+			}
+		}
+		if f == 0 {
+			if fc["instant_off_the_second"] != 0 {
+				c.Infra("harness: a chain of whole seconds carries an instant off the second")
+			}
+			continue
+		}
+		for _, k := range []string{"instant_off_the_second", "median_off_the_second", "time_candidate_decided_by_its_second",
+			"median_off_the_second:time=reject:time", "median_off_the_second:attime=accept"} {
+			if fc[k] == 0 {
+				c.Infra("vacuity: sub-second class %s: %s never observed", fracClassName(f), k)
+			}
 		}
 	}
 	// header admission on networks whose fork heights are 0 / 1: every clause decides there, accepted headers exist
@@ -750,10 +812,30 @@ func corrupt(c *vlib.Ctx, trace []map[string]any) {
 			hv := append([]bool{}, ln["hv"].([]bool)...)
 			hv[2] = !hv[2]
 			ln["hv"] = hv
-		case "prev":
-			p := append([]int{}, f["prev"].([]int)...)
-			p[len(p)-1]++
+		case "prev", "prevns": // the oldest instant of the window: another second / another nanosecond
+			p := append([][]int{}, f["prev"].([][]int)...)
+			last := append([]int{}, p[len(p)-1]...)
+			if what == "prev" {
+				last[0]++
+			} else {
+				last[1] ^= 1
+			}
+			p[len(p)-1] = last
 			f["prev"], h["prev"] = p, p
+		case "x": // the alternating chain differs by one nanosecond of oak time
+			x := clone(ln["x"].(map[string]any))
+			bump(x, "oakTime")
+			ln["x"] = x
+		case "dh": // the decoded header leads to another state than the decoded block
+			x := clone(ln["dh"].(map[string]any))
+			bump(x, "oakTime")
+			ln["dh"] = x
+		case "okr":
+			cs := append([]map[string]any{}, ln["cands"].([]map[string]any)...)
+			c0 := clone(cs[3])
+			c0["okr"] = !c0["okr"].(bool)
+			cs[3] = c0
+			ln["cands"] = cs
 		default:
 			c.Fatal("unknown C13_CORRUPT=%s", what)
 		}
